@@ -304,7 +304,8 @@ func longestPrefix(s1, s2 string) int {
 	for i := 0; i < l; i++ {
 		switch s1[i] {
 		case startByte:
-			if state != startByte { // 参数之内的 { 属于规则的一部分，参数到第一个 } 为止。
+			if state != startByte && strings.IndexByte(s1[i:], endByte) > 0 { // 没有 } 与之对应的 { 只是普通字符
+				// 参数之内的 { 属于规则的一部分，参数到第一个 } 为止。
 				startIndex = i
 				state = startByte
 				hasRule = false
